@@ -68,7 +68,16 @@ func (l *letGen) use(depth int) ast.Expr {
 		return v()
 	}
 	pair := func(x ast.Expr) ast.Step { return ast.Step{Kind: ast.SMultiList, Items: []ast.Expr{x, ast.Cur()}} }
-	switch rapid.IntRange(0, 11).Draw(t, "usekind") {
+	switch rapid.IntRange(0, 14).Draw(t, "usekind") {
+	case 12: // selectors continuing a slice of a string (no projection) or of an array (projection)
+		sl := ast.Step{Kind: ast.SSlice, Start: ast.I64(0), Stop: ast.I64(int64(rapid.IntRange(1, 3).Draw(t, "slstop")))}
+		if rapid.Bool().Draw(t, "slstep") {
+			sl.Stride = ast.I64(int64(gen.Pick(t, "slstride", []int{1, 2, -1})))
+		}
+		return ast.F(gen.Pick(t, "slsubject", []string{"s", "s", "a"})).With(sl, pair(inner()))
+	case 13: // a call step after a slice / index / flatten
+		before := gen.Pick(t, "callafter", []ast.Step{{Kind: ast.SSlice, Stop: ast.I64(2)}, {Kind: ast.SIndex, Index: 0}, {Kind: ast.SFlatten}, {Kind: ast.SListStar}})
+		return ast.F(gen.Pick(t, "callsubject", []string{"s", "a", "aa"})).With(before, ast.Step{Kind: ast.SCall, Name: "not_null", Args: []ast.Arg{ast.A(inner()), ast.A(ast.Cur())}})
 	case 0:
 		return inner()
 	case 1: // projection
@@ -241,7 +250,7 @@ func c19Doc(t *rapid.T) jv.Val {
 // C19: let-bindings are lexically scoped and capture the value at binding time.
 func TestC19_Let(t *testing.T) {
 	c := collector("C19", "let")
-	rapid.Check(t, func(t *rapid.T) {
+	check(t, func(t *rapid.T) {
 		doc := c19Doc(t)
 		lg := &letGen{t: t, doc: doc}
 		e := lg.let(0)
